@@ -17,7 +17,7 @@ SIGSET.reflection: a REFLECTION query is sent to a handler only where a test tha
 import ast
 
 from sa.model import AnalysisError, walk_shallow, dotted, norm
-from sa.util import cfg_of, shallow_calls, signal_const, guarded_by_edge, strip_not, local_defs
+from sa.util import expand_locals, cfg_of, shallow_calls, signal_const, guarded_by_edge, strip_not, local_defs
 from sa.context import callgraph, effects
 from sa import wrap
 from sa.cfg import INF
@@ -210,5 +210,30 @@ def check(run, model, tier):
     from props.c21 import live_spy_loops
     run.rule('LIVE.snapshot', 'live-output wrappers iterate a snapshot of the step log, once per line, after the step (other threads append to it)')
     live_spy_loops(run, model, cg, {f.name: f for f in cg.factories}, rule='LIVE.snapshot')
+    # an exception that escapes from an after-step wrapper aborts next_rtc/complete_circuit (and kills an active object's thread): the trace formatter calls
+    # strftime on the record's datetime, and a record built after the tuple ring was emptied by a long step carries datetime None
+    run.rule('WRAP.no-raise', 'the after-step live-trace wrapper formats a record only when its datetime is not None')
+    from sa.boolflow import must_atoms
+    fmap = {f.name: f for f in cg.factories}
+    fac_ = fmap.get('print_trace_after_rtc_if_live')
+    if fac_ is None:
+        raise AnalysisError('print_trace_after_rtc_if_live not found')
+    inn_ = cg.factories[fac_]
+    g_ = cfg_of(inn_)
+    n_fmt = 0
+    for n_ in g_.nodes:
+        if n_.kind in ('entry', 'exit', 'xexit', 'def'):
+            continue
+        for c_ in n_.calls():
+            if isinstance(c_.func, ast.Attribute) and c_.func.attr == 'trace_tuple_to_formatted_string' and c_.args:
+                n_fmt += 1
+                a_ = norm(expand_locals(c_.args[0], inn_.node, params=inn_.params))
+                atoms = must_atoms(g_, n_, inn_.node, params=inn_.params)
+                ok = any(l == a_ + '.datetime' and ((op in ('IsNot', 'NotEq') and r == 'None') or op == 'Truthy') for (l, op, r) in atoms)
+                run.inst('WRAP.no-raise', inn_, 'formatting guarded by `record.datetime is not None`', ok,
+                         '' if ok else ('the live-trace wrapper of next_rtc formats the newest trace record without checking that its datetime is set: for a step that makes more state-handler '
+                                        'calls than the tuple ring holds, the record has datetime None, strftime raises TypeError out of next_rtc - with live trace on the chart stops '
+                                        'mid-circuit (an active object\'s thread dies), with it off it does not'), node=c_, obligation=True)
+    run.floor('after-step live-trace formatting sites', n_fmt, 1)
     run.assume('H4: state handlers cannot reach the processor\'s or the wrappers\' locals')
     run.assume('wrappers registered by users (live callbacks) are outside the quantifier')
